@@ -24,7 +24,7 @@ V_icao_rel(e, canon) ==
                 /\ BytesOfText(e.res.v) = BytesOfText(HexText(a, 6))) THEN "icao_wrong_address"
       ELSE IF e.rel = 1 /\ a \in DOMAIN canon /\ canon[a] # e.res.v THEN "icao_two_keys_for_one_address"
       ELSE IF e.res.v # HexText(a, 6) THEN "drift:icao_not_upper_case"
-      ELSE IF "want" \in DOMAIN e /\ e.want # HexText(a, 6) THEN "oracle:recorded_address_column_differs"
+      ELSE IF "want" \in DOMAIN e /\ e.want # HexText(a, 6) THEN "note:recorded_address_column_differs"
       ELSE "ok"
 
 V_icao(e) == V_icao_rel(e, <<>>)
